@@ -25,6 +25,9 @@ M == 1000003
 Mix(h, x)  == (h * 131 + x + 1000) % M
 MixV(h, v) == Mix(Mix(Mix(h, v[1]), v[2]), v[3])
 MixP(h, P) == Mix(MixV(h, P), P[4])
+RECURSIVE MixSeqP(_, _)
+MixSeqP(h, q) == IF q = <<>> THEN h ELSE MixSeqP(MixP(h, Head(q)), Tail(q))
+CodeSet(V) == MixSeqP(17, SetToSeq(V))
 CoordSum(V) == LET q == SetToSeq(V) IN SumSeq([i \in 1..Len(q) |-> (q[i][1] + 3 * q[i][2] + 7 * q[i][3] + 11 * q[i][4]) % 1009])
 Code(o) ==
   CASE o.k = "Point"    -> MixP(1, o.p)
@@ -32,8 +35,8 @@ Code(o) ==
     [] o.k = "HalfLine" -> MixV(MixP(3, o.p), o.u)
     [] o.k = "Segment"  -> MixP(MixP(4, o.a), o.b)
     [] o.k = "Plane"    -> MixV(MixP(5, o.p), o.n)
-    [] o.k = "Polygon"  -> Mix(6, CoordSum(Range(o.cyc)))
-    [] o.k = "Polyhedron" -> Mix(7, CoordSum(o.vs))
+    [] o.k = "Polygon"  -> Mix(6, CodeSet(Range(o.cyc)))
+    [] o.k = "Polyhedron" -> Mix(7, CodeSet(o.vs))
     [] OTHER -> 0
 InShard3(a, b, t, seed, n) == n = 1 \/ (Mix(MixV(Mix(Code(a), Code(b)), t), seed) % n) = 0
 InShard(a, b, seed, n) == n = 1 \/ (Mix(Mix(Code(a), Code(b)), seed) % n) = 0
